@@ -32,6 +32,8 @@ def main():
         ev = json.load(open(pipeline.EVID / f"{a.pid}.json"))
         base = pipeline.load_baseline()
         base[a.pid] = sorted(o["id"] for o in ev["coverage"]["obligation_table"] if o["status"] == "discharged")
+        base[a.pid + ".undecided"] = sorted(o["id"] for o in ev["coverage"]["obligation_table"]
+                                            if o["status"] == "undecided" and not o["id"].endswith("/*"))
         pipeline.BASELINE.parent.mkdir(exist_ok=True)
         pipeline.BASELINE.write_text(json.dumps(base, indent=1))
         print(f"baseline for {a.pid}: {len(base[a.pid])} obligations")
